@@ -1,8 +1,9 @@
 """Deductive part of C16: vec / unvec index contracts and mutual inverse (E1-array), tensor power and folds (E1-integer)."""
 
 
-TERM_PREDS = ["is_hermitian", "is_symmetric", "is_idempotent", "is_identity", "is_normal", "is_projection", "is_unitary", "is_anti_hermitian", "is_commuting", "is_density"]
+TERM_PREDS = ["is_positive_semidefinite", "is_hermitian", "is_symmetric", "is_idempotent", "is_identity", "is_normal", "is_projection", "is_unitary", "is_anti_hermitian", "is_commuting", "is_density"]
 TERM_MUTS = [
+    ("is_positive_semidefinite", "is_hermitian(mat, rtol, atol)", "is_hermitian(mat, atol, rtol)"),
     ("is_hermitian", "np.allclose(mat, mat.conj().T, rtol=rtol, atol=atol)", "np.allclose(mat, mat.conj().T, atol, rtol)"),
     ("is_identity", "np.allclose(mat, id_mat, rtol=rtol, atol=atol)", "np.allclose(mat, id_mat, rtol=rtol)"),
     ("is_unitary", "u_uc_mat = mat @ mat.conj().T", "u_uc_mat = mat.conj().T @ mat"),
@@ -35,16 +36,25 @@ def tol_matrix(p):
             if got != exp:
                 raise Violation("%s with positional tolerances (%g, %g) = %s, expected %s" % (name, rtol, atol, got, exp))
 
+    def _asym(eps):
+        # the asymmetry sits at an entry whose mirror entry has modulus 1, 0 and 100: only for modulus 1 do rtol and atol weigh the same
+        return [(np.array([[2.0, 1.0 + eps], [1.0, 3.0]]), 1.0), (np.array([[2.0, eps], [0.0, 3.0]]), 0.0), (np.array([[300.0, 100.0 + eps], [100.0, 300.0]]), 100.0)]
+
     grid = [(1e-4, 0.0, 1e-3), (1e-4, 1e-3, 1e-9), (1e-4, 1e-6, 1e-9), (1e-7, None, None), (1e-3, None, None), (1e-2, 0.1, 1e-6), (1e-2, 1e-6, 0.1)]
     fn = p.get("fn")
     for eps, rtol, atol in grid:
         if fn in (None, "is_hermitian", "is_symmetric"):
             for name in ("is_hermitian", "is_symmetric"):
-                X = np.array([[2.0, 1.0 + eps], [1.0, 3.0]])
-                judge(name, X, eps, 1.0, rtol, atol)
+                for X, m in _asym(eps):
+                    judge(name, X, eps, m, rtol, atol)
+        if fn in (None, "is_positive_semidefinite"):
+            for X, m in _asym(eps):  # positive definite up to the asymmetry eps
+                judge("is_positive_semidefinite", X, eps, m, rtol, atol)
         if fn in (None, "is_anti_hermitian"):
             X = np.array([[0.0, 1.0 + eps], [-1.0, 0.0]])
             judge("is_anti_hermitian", X, eps, 1.0, rtol, atol)
+            judge("is_anti_hermitian", np.array([[0.0, eps], [0.0, 0.0]]), eps, 0.0, rtol, atol)
+            judge("is_anti_hermitian", np.array([[0.0, 100.0 + eps], [-100.0, 0.0]]), eps, 100.0, rtol, atol)
         if fn in (None, "is_identity"):
             X = np.eye(3)
             X[0, 2] = eps
@@ -55,6 +65,9 @@ def tol_matrix(p):
         if fn in (None, "is_unitary"):
             U = np.eye(2) * np.sqrt(1.0 + eps)
             judge("is_unitary", U, eps, 1.0, rtol, atol)
+            if eps < 0.5 and (rtol is None or rtol < 0.5):
+                # a shear: U U^* = [[1 + eps^2, eps], [eps, 1]]; the defect eps sits where the identity is 0 (rtol cannot help), eps^2 <= eps on the diagonal
+                judge("is_unitary", np.array([[1.0, eps], [0.0, 1.0]]), eps, 0.0, rtol, atol)
         if fn in (None, "is_idempotent", "is_projection"):
             P = np.diag([1.0, 0.0]) + np.array([[0.0, 0.0], [0.0, 0.0]])
             Q = np.diag([1.0 + eps, 0.0])  # Q^2 - Q = diag(eps + eps^2, 0) at a reference entry of modulus ~1
@@ -70,7 +83,7 @@ EXTRA_CLAUSES = {"tol.matrix": tol_matrix}
 
 
 def extra_cases(tier, seed):
-    return [dict(clause="tol.matrix", params=dict(fn=fn), input_class="tolerances/%s" % fn, nontrivial=True) for fn in ("is_hermitian", "is_anti_hermitian", "is_identity", "is_unitary", "is_idempotent", "is_normal")]
+    return [dict(clause="tol.matrix", params=dict(fn=fn), input_class="tolerances/%s" % fn, nontrivial=True) for fn in ("is_hermitian", "is_positive_semidefinite", "is_anti_hermitian", "is_identity", "is_unitary", "is_idempotent", "is_normal")]
 
 
 def prove(tier, seed):
